@@ -4,8 +4,8 @@
    hash, a signature records signer and signed content, verification is equality (ECDSA
    unforgeability and the key derivation are idealised - part of the trusted base). *)
 From V.lib Require Import Base.
-From V.model Require Import Client ClientSpec SendMachine.
-From V.proofs Require Import Client_Proofs SendMachine_Proofs.
+From V.model Require Import Client ClientSpec SendMachine SendAuth.
+From V.proofs Require Import Client_Proofs SendMachine_Proofs SendAuth_Proofs.
 
 (* the connection becomes accepted iff it already was, or the accept message is genuine: it carries
    the key derived from the configured server key and THIS connection's hash, and the signature is
@@ -84,3 +84,27 @@ Example C18_example :
   c18_monitor true C18_example_ops (run true 100 C18_example_ops) = None /\
   map (hd 0) (run true 100 C18_example_ops) = [0; 0; 1; 2; 0; 0; 0; 5; 1].
 Proof. vm_compute. repeat split; reflexivity. Qed.
+
+(* Acceptance is per connection (model SendAuth: the accepted flag across connections, with the handler goroutine
+   handling accepts independently of the connection goroutine): on every history of connects, drops, new sessions,
+   accepts for any session (handled at any moment, also after their connection was torn down) and data messages, the
+   client counts as accepted / delivers data only if an accept for the then-current session was handled since the
+   current connection started (monitor code 813 never fires). *)
+Theorem C18_accept_is_per_connection : forall ops : list aop, auth_monitor ops (arun ops) = None.
+Proof. exact auth_monitor_silent. Qed.
+Print Assumptions C18_accept_is_per_connection.
+
+Theorem C18_connect_resets_accepted : forall s, a_acc (fst (astep s (ABase SConnect))) = false.
+Proof. exact connect_resets_accepted. Qed.
+Print Assumptions C18_connect_resets_accepted.
+
+Theorem C18_stale_accept_rejected : forall s n, n <> a_sess s -> a_acc (fst (astep s (AAccept n))) = a_acc s.
+Proof. exact stale_accept_rejected. Qed.
+Print Assumptions C18_stale_accept_rejected.
+
+(* Non-vacuity: an accept of connection 1 handled after its tear-down sets the flag; connection 2 starts without it,
+   its data is dropped until its own accept arrives. *)
+Example C18_late_accept_example :
+  arun [ASession; ABase SConnect; ABase SDrop; AAccept 1; AFlags; ASession; ABase SConnect; AFlags; AData; AAccept 1; AAccept 2; AData]
+  = [[0]; [0]; [0]; [0; 1]; [0; 1]; [0]; [0]; [0; 0]; [0; 0]; [1; 0]; [0; 1]; [0; 1]].
+Proof. vm_compute. reflexivity. Qed.
